@@ -43,6 +43,7 @@ META = {
     "assumptions": ["vcsgraph Graph.heads / iter_lefthand_ancestry / find_distance_to_null behave like Lib/Dag (compared on every run, kind=graph)",
                     "source and target branches record revno = left-hand history length and have no ghost on the left-hand history of their tips (hypothesis `consistent`)",
                     "the stop revision is present in the source repository",
+                    "append-only is switched on through any documented place of the option append_revisions_only: branch.conf (set_append_revisions_only or at creation), a locations.conf section for the branch or a directory above it, or breezy.conf; the model only sees the resulting boolean",
                     "local bzr 2a branches; fetch succeeds"],
     "rule": "kind=op cases with two different non-null tips are non-trivial; distinct = distinct (input, observation)",
 }
@@ -77,12 +78,15 @@ def setup(scratch):
     import breezy
     import breezy.bzr  # noqa: F401
     from dromedary.memory import MemoryServer
+    from breezy import bedding
+    bedding.ensure_config_dir_exists()      # locations.conf / breezy.conf live in the scratch BRZ_HOME
     srv = MemoryServer()
     srv.start_server()
     _state.update(server=srv, url=srv.get_url(), n=0, cache={})
 
 
 def teardown():
+    _undo_config()
     srv = _state.pop("server", None)
     if srv is not None:
         srv.stop_server()
@@ -116,7 +120,22 @@ def _op_case(rng, g, force=None):
                           "ao": rng.random() < 0.2}
     if force:
         case.update(force)
+    _choose_via(rng, case)
     return case
+
+
+def _choose_via(rng, case):
+    """Pick how append-only is switched on (only where it is on).  A global setting covers every branch."""
+    pick = lambda: rng.choice(["branch", "branch", "init", "locations", "locations", "locations_parent", "global"])
+    m = case.get("master")
+    if case["tgt_ao"]:
+        case["tgt_ao_via"] = pick()
+    if m is not None and m["ao"]:
+        m["ao_via"] = pick()
+    if case.get("tgt_ao_via") == "global" or (m is not None and m.get("ao_via") == "global"):
+        case["tgt_ao"], case["tgt_ao_via"] = True, "global"
+        if m is not None:
+            m["ao"], m["ao_via"] = True, "global"
 
 
 FIXED = [
@@ -148,6 +167,19 @@ def corpus():
                             "src": s_, "stop": stop, "overwrite": shape})
             out.append({"kind": "op", "op": op, "g": g, "tgt": 4, "tgt_ao": False, "master": {"tip": 4, "ao": True},
                         "src": 5, "stop": "null", "overwrite": shape})
+    for via in AO_VIA:
+        for op in ("pull", "push"):
+            # diverged + overwrite, stop onto a side branch, backwards with overwrite, null:, plain descendant
+            for t, s_, stop, shape in ((4, 5, None, "T"), (4, 5, None, "history"), (3, 4, None, "F"), (4, 1, 1, "T"),
+                                       (4, 5, "null", "both"), (1, 4, None, "F"), (4, 5, None, "tags")):
+                out.append({"kind": "op", "op": op, "g": g, "tgt": t, "tgt_ao": True, "tgt_ao_via": via, "master": None,
+                            "src": s_, "stop": stop, "overwrite": shape})
+            out.append({"kind": "op", "op": op, "g": g, "tgt": 4, "tgt_ao": via == "global", "tgt_ao_via": via,
+                        "master": {"tip": 4, "ao": True, "ao_via": via}, "src": 5, "stop": None, "overwrite": "T"})
+    for via in ("branch", "locations", "global"):
+        for new in (None, 1, 2, 3, 4, 5):
+            out.append({"kind": "setinfo", "g": g, "tgt": 4, "tgt_ao": True, "tgt_ao_via": via, "new": new})
+            out.append({"kind": "genhist", "g": g, "tgt": 4, "tgt_ao": True, "tgt_ao_via": via, "new": new})
     for ao in (False, True):
         for t in (None, 1, 3, 4):
             for new in (None, 0, 2, 3, 4, 5):
@@ -197,8 +229,9 @@ def cases(rng, tier):
         yield _op_case(rng, g, {"tgt": t, "stop": "null", "tgt_ao": True, "overwrite": rng.choice(["T", "history", "both"])})
         for _ in range(3):
             yield {"kind": "setinfo", "g": g, "tgt": rng.choice(good + [None]), "tgt_ao": rng.random() < 0.6,
-                   "new": rng.choice(good + [None])}
+                   "tgt_ao_via": rng.choice(["branch", "locations", "global"]), "new": rng.choice(good + [None])}
             yield {"kind": "genhist", "g": g, "tgt": rng.choice(good + [None]), "tgt_ao": rng.random() < 0.6,
+                   "tgt_ao_via": rng.choice(["branch", "locations", "global"]),
                    "new": rng.choice(list(range(n)) + [None])}
         div = [x for x in good if not daglib.is_ancestor(g, t, x) and not daglib.is_ancestor(g, x, t)]
         if div:
@@ -249,19 +282,74 @@ def _set_tip(br, g, tip):
         br.unlock()
 
 
-def _new_branch(srcrepo, g, tip, ao):
-    from breezy import controldir
+# How "append-only history enabled" is realised.  append_revisions_only is a branch config option and can be
+# set in the branch's own branch.conf (set_append_revisions_only, or at creation), in a locations.conf section
+# for the branch or for a directory above it (a site policy), or globally in breezy.conf.
+AO_VIA = ("branch", "init", "locations", "locations_parent", "global")
+
+
+def _via(d, key):
+    return d.get(key) or "branch"
+
+
+def _new_branch(srcrepo, g, tip, ao, via="branch"):
+    from breezy import config, controldir
+    from breezy.transport import get_transport
     _state["n"] += 1
-    cd = controldir.ControlDir.create(_state["url"] + "b%d" % _state["n"],
+    rel = "b%d" % _state["n"]
+    if ao and via == "locations_parent":
+        get_transport(_state["url"] + "p%d" % _state["n"]).ensure_base()
+        rel = "p%d/b%d" % (_state["n"], _state["n"])
+    cd = controldir.ControlDir.create(_state["url"] + rel,
                                       format=controldir.format_registry.make_controldir("2a"))
     cd.create_repository()
-    br = cd.create_branch()
+    br = cd.create_branch(append_revisions_only=True) if ao and via == "init" else cd.create_branch()
     if tip is not None:
         br.repository.fetch(srcrepo, revision_id=rid(tip))
     _set_tip(br, g, tip)
     if ao:
-        br.set_append_revisions_only(True)
+        if via == "branch":
+            br.set_append_revisions_only(True)
+        elif via == "locations":
+            config.LocationStack(br.base).set("append_revisions_only", True)
+            _state.setdefault("undo", []).append(("loc", br.base))
+        elif via == "locations_parent":
+            parent = _state["url"] + rel.split("/")[0] + "/"
+            config.LocationStack(parent).set("append_revisions_only", True)
+            _state.setdefault("undo", []).append(("loc", parent))
+        elif via == "global":
+            if not any(u == ("glob", None) for u in _state.get("undo", [])):
+                config.GlobalStack().set("append_revisions_only", True)
+                _state.setdefault("undo", []).append(("glob", None))
+        # setup check through the documented mechanism (the branch's config stack), not through the
+        # accessor under test
+        if Branch_open(br.base).get_config_stack().get("append_revisions_only") is not True:
+            raise AssertionError("append_revisions_only not visible in the branch config stack via %s" % via)
+    br._rel = rel.split("/")[0]
     return br
+
+
+def Branch_open(url):
+    from breezy.branch import Branch
+    return Branch.open(url)
+
+
+def _undo_config():
+    from breezy import config
+    for kind, where in _state.pop("undo", []):
+        stack = config.GlobalStack() if kind == "glob" else config.LocationStack(where)
+        try:
+            stack.remove("append_revisions_only")
+        except KeyError:
+            pass
+
+
+def _drop(*branches):
+    from breezy.transport import get_transport
+    root = get_transport(_state["url"])
+    for b in branches:
+        if b is not None:
+            root.delete_tree(b._rel)
 
 
 def _info(br):
@@ -315,8 +403,18 @@ def impl(inp):
     if kind in ("setinfo", "genhist"):
         tgt = _new_branch(src.repository, g, inp["tgt"], False)
         tgt.repository.fetch(src.repository)          # the whole graph: the new revision must be present
+        rel = tgt._rel
         if inp["tgt_ao"]:
-            tgt.set_append_revisions_only(True)
+            via = _via(inp, "tgt_ao_via")
+            if via in ("branch", "init", "locations_parent"):
+                tgt.set_append_revisions_only(True)     # (creation-time / parent-directory variants: op cases)
+            else:
+                from breezy import config
+                stack = config.GlobalStack() if via == "global" else config.LocationStack(tgt.base)
+                stack.set("append_revisions_only", True)
+                _state.setdefault("undo", []).append(("glob", None) if via == "global" else ("loc", tgt.base))
+            tgt = Branch.open(tgt.base)
+            tgt._rel = rel
         new = inp["new"]
         try:
             if kind == "setinfo":
@@ -328,15 +426,16 @@ def impl(inp):
             if type(e).__name__ not in EXPECTED:
                 raise
             out = [Err(type(e).__name__), _info(Branch.open(tgt.base))]
-        from breezy.transport import get_transport
-        get_transport(_state["url"]).delete_tree(tgt.base[len(_state["url"]):].strip("/"))
+        finally:
+            _undo_config()
+        _drop(tgt)
         return out
     # kind == "op"
     _set_tip(src, g, inp["src"])
     master = None
     if inp["master"] is not None:
-        master = _new_branch(src.repository, g, inp["master"]["tip"], inp["master"]["ao"])
-    tgt = _new_branch(src.repository, g, inp["tgt"], inp["tgt_ao"])
+        master = _new_branch(src.repository, g, inp["master"]["tip"], inp["master"]["ao"], _via(inp["master"], "ao_via"))
+    tgt = _new_branch(src.repository, g, inp["tgt"], inp["tgt_ao"], _via(inp, "tgt_ao_via"))
     if master is not None:
         tgt.set_bound_location(master.base)
     stop = None if inp["stop"] is None else b"null:" if inp["stop"] == "null" else rid(inp["stop"])
@@ -351,13 +450,10 @@ def impl(inp):
         if type(e).__name__ not in EXPECTED:
             raise
         status = Err(type(e).__name__)
+    finally:
+        _undo_config()
     out = [status, _info(Branch.open(tgt.base)), None if master is None else _info(Branch.open(master.base))]
-    # the memory server keeps everything: drop this case's branches
-    from breezy.transport import get_transport
-    root = get_transport(_state["url"])
-    for b in (tgt, master):
-        if b is not None:
-            root.delete_tree(b.base[len(_state["url"]):].strip("/"))
+    _drop(tgt, master)      # the memory server keeps everything: drop this case's branches
     return out
 
 
@@ -513,6 +609,9 @@ def distribution(inputs, observations):
         d[i["op"]] += 1
         d["bound"] += i["master"] is not None
         d["append_only"] += bool(i["tgt_ao"])
+        if i["tgt_ao"]:
+            d.setdefault("append_only_via", {})
+            d["append_only_via"][_via(i, "tgt_ao_via")] = d["append_only_via"].get(_via(i, "tgt_ao_via"), 0) + 1
         d["overwrite"] += _ow_history(i)
         d["overwrite_shape"][_ow(i)] = d["overwrite_shape"].get(_ow(i), 0) + 1
         d["with_stop"] += i["stop"] is not None
@@ -538,7 +637,7 @@ def shrink(inp, fails):
     if fails({"kind": "graph", "g": [[]], "keys": [0], "r": 0}):
         return inp
     cur = dict(inp)
-    for key, val in (("master", None), ("tgt_ao", False)):
+    for key, val in (("master", None),):
         cand = dict(cur, **{key: val})
         if cand != cur and fails(cand):
             cur = cand
